@@ -28,7 +28,11 @@ import (
 )
 
 const (
-	gib                                              = 1024 * 1024 * 1024
+	gib = 1024 * 1024 * 1024
+	// maxTDXScratchMemory bounds the combined size of the TD HOB and temporary memory sections, whose
+	// sizes come only from the metadata and not from the firmware volumes. Real TDVF images use a few
+	// hundred KiB; the bound keeps measurement time and memory proportional to the image.
+	maxTDXScratchMemory                              = 64 * 1024 * 1024
 	tdhobBaseAttributes abi.EFIResourceAttributeType = abi.EFIResourceAttributePresent |
 		abi.EFIResourceAttributeInitialized |
 		abi.EFIResourceAttributeTested
@@ -89,6 +93,15 @@ func validateTDXMetadataSections(firmwareLen uint32, rawMetadata *abi.TDXMetadat
 	}
 	var foundTDHOB, foundBFV bool
 	var fvSize uint32
+	var scratchSize uint64
+	scratchCheck := func(section *abi.TDXMetadataSection) error {
+		if section.MemorySize > maxTDXScratchMemory || scratchSize+section.MemorySize > maxTDXScratchMemory {
+			return fmt.Errorf("TD HOB and temporary memory sections are larger than 0x%x bytes: section size 0x%x",
+				maxTDXScratchMemory, section.MemorySize)
+		}
+		scratchSize += section.MemorySize
+		return nil
+	}
 	cfvCheck := func(section *abi.TDXMetadataSection) error {
 		if (section.DataOffset > firmwareLen) || (section.DataSize == 0) ||
 			((firmwareLen - section.DataOffset) < section.DataSize) {
@@ -103,6 +116,9 @@ func validateTDXMetadataSections(firmwareLen uint32, rawMetadata *abi.TDXMetadat
 		return nil
 	}
 	for _, section := range rawMetadata.Sections {
+		if uint64(section.MemoryBase)+section.MemorySize < uint64(section.MemoryBase) {
+			return fmt.Errorf("memory range overflows, base: 0x%x, size: 0x%x", section.MemoryBase, section.MemorySize)
+		}
 		switch section.SectionType {
 		case abi.TDXMetadataSectionTypeBFV:
 			foundBFV = true
@@ -118,7 +134,13 @@ func validateTDXMetadataSections(firmwareLen uint32, rawMetadata *abi.TDXMetadat
 				return fmt.Errorf("TDX metadata contains multiple TD HOB sections")
 			}
 			foundTDHOB = true
-		case abi.TDXMetadataSectionTypeTempMem: // do nothing
+			if err := scratchCheck(section); err != nil {
+				return err
+			}
+		case abi.TDXMetadataSectionTypeTempMem:
+			if err := scratchCheck(section); err != nil {
+				return err
+			}
 		default:
 			return fmt.Errorf("unsupported metadata section type: %v", section.SectionType)
 		}
